@@ -212,9 +212,14 @@ bool TCPStream::generic_process(uint32_t& my_seq,
                         it->second->payload().end()
                     );
                     my_seq += it->second->payload_size();
+                    // Only report a change if this chunk actually contained
+                    // data (a retransmission ending right at our sequence
+                    // number is sliced down to an empty chunk)
+                    if (it->second->payload_size() > 0) {
+                        added_some = true;
+                    }
                     delete it->second;
                     it = erase_iterator(it, frags);
-                    added_some = true;
                     if (frags.empty()) {
                         break;
                     }
